@@ -115,6 +115,15 @@ structure LPAns where
   lam : List Rat
 deriving Inhabited
 
+/-- which `eval_gap` call certified an iterate: the store it started from, the index of its first oracle call, its
+    arguments -/
+structure Cert where
+  hs : List Hyp
+  k : Nat
+  Q : List Rat
+  lamHat : List Rat
+deriving Inhabited
+
 structure Oracles where
   h : Nat → Hyp
   lp : Nat → LPAns
@@ -132,6 +141,7 @@ structure State where
   lpCalls : Nat                 -- non-cached solve_linprog calls
   lpN : Nat                     -- last_linprog_n_hs
   lpRes : Option (LPAns × GapRes)
+  lpFrom : List Hyp × Nat       -- store and oracle-call count when the cached LP result was evaluated
   lamCols : List (List Rat)     -- lambda_vecs_EG_ (one entry per iteration)
   lamEGs : List (List Rat)      -- lambda_EG of every iteration
   thetas : List (List Rat)      -- theta used by every iteration
@@ -141,6 +151,7 @@ structure State where
   qs : List (List Rat)          -- Qs
   fromLP : List Bool            -- which branch filled Qs[t] / gaps[t]
   lamLP : List (Nat × List Rat) -- lambda_vecs_LP_ columns
+  certs : List (Cert × Rat × List Rat)  -- per iteration: the certifying eval_gap call, gaps[t], Qs[t]
   shrinks : Nat
   checks : Nat
   cacheHits : Nat
@@ -148,8 +159,8 @@ structure State where
 def initState (P : Params) : State :=
   { t := 0, done := false, theta := List.replicate P.c.length EGLoopGen.thetaInit,
     eta := EGLoopGen.etaInit P.eta0 P.B, qsum := [], lastChecked := EGLoopGen.lastCheckedInit, lastGap := none,
-    hs := [], calls := 0, lpCalls := 0, lpN := 0, lpRes := none, lamCols := [], lamEGs := [], thetas := [], etas := [],
-    gapsEG := [], gaps := [], qs := [], fromLP := [], lamLP := [], shrinks := 0, checks := 0, cacheHits := 0 }
+    hs := [], calls := 0, lpCalls := 0, lpN := 0, lpRes := none, lpFrom := ([], 0), lamCols := [], lamEGs := [], thetas := [], etas := [],
+    gapsEG := [], gaps := [], qs := [], fromLP := [], lamLP := [], certs := [], shrinks := 0, checks := 0, cacheHits := 0 }
 
 /-- `lambda_vec = B * np.exp(theta) / (1 + np.exp(theta).sum())` -/
 def lamVec (P : Params) (theta : List Rat) : List Rat :=
@@ -179,7 +190,9 @@ def solveLP (P : Params) (O : Oracles) (s : State) : State × LPAns × GapRes :=
   | none =>
     let a := O.lp s.lpCalls
     let ev := evalGap P.ctx O.h s.hs s.calls a.Q a.lam
-    ({ s with hs := ev.1, calls := ev.2.1, lpCalls := s.lpCalls + 1, lpN := s.hs.length, lpRes := some (a, ev.2.2) },
+    ({ s with
+        hs := ev.1, calls := ev.2.1, lpCalls := s.lpCalls + 1, lpN := s.hs.length, lpRes := some (a, ev.2.2),
+        lpFrom := (s.hs, s.calls) },
       a, ev.2.2)
 
 def thetaStep (P : Params) (theta : List Rat) (eta : Rat) (gamma : List Rat) : List Rat :=
@@ -197,6 +210,7 @@ structure Decision where
   q : List Rat              -- what is appended to `Qs`
   useEG : Bool
   lpLam : Option (List Rat) -- lambda_vecs_LP_[t] when the LP step ran
+  cert : Cert               -- the eval_gap call behind `gap`
   s2 : State                -- store and counters after the oracle / LP calls
 
 /-- the body of `for t in range(0, self.max_iter)` up to and including the EG-vs-LP choice -/
@@ -211,13 +225,16 @@ def decision (P : Params) (O : Oracles) (s : State) : Decision :=
   let s1 : State := { s with hs := ev.1, calls := ev.2.1 }
   if EGLoopGen.skipLP s.t P.runLP then
     { lam := lam, lamEG := lamEG, qsum := qsum, gamma := (bh.1.getD bh.2 default).gam, gapEG := gapEG, gap := gapEG,
-      q := qEG, useEG := true, lpLam := none, s2 := s1 }
+      q := qEG, useEG := true, lpLam := none, cert := ⟨bh.1, s.calls + 1, qEG, lamEG⟩, s2 := s1 }
   else
     let r := solveLP P O s1
     { lam := lam, lamEG := lamEG, qsum := qsum, gamma := (bh.1.getD bh.2 default).gam, gapEG := gapEG,
       gap := if EGGen.preferEG gapEG r.2.2.gap then gapEG else r.2.2.gap,
       q := if EGGen.preferEG gapEG r.2.2.gap then qEG else r.2.1.Q,
-      useEG := EGGen.preferEG gapEG r.2.2.gap, lpLam := some r.2.1.lam, s2 := r.1 }
+      useEG := EGGen.preferEG gapEG r.2.2.gap, lpLam := some r.2.1.lam,
+      cert := if EGGen.preferEG gapEG r.2.2.gap then ⟨bh.1, s.calls + 1, qEG, lamEG⟩
+              else ⟨r.1.lpFrom.1, r.1.lpFrom.2, r.2.1.Q, r.2.1.lam⟩,
+      s2 := r.1 }
 
 /-- `if (gaps[t] < self.nu) and (t >= _MIN_ITER): break` -/
 def brkOf (P : Params) (s : State) (D : Decision) : Bool := EGGen.breakCond D.gap P.nu s.t
@@ -238,11 +255,12 @@ def finish (P : Params) (s : State) (D : Decision) : State :=
     eta := etaOf P s D, qsum := D.qsum,
     lastChecked := if dueOf P s D then s.t else s.lastChecked,
     lastGap := if dueOf P s D then some (bestGapOf s D) else s.lastGap,
-    hs := D.s2.hs, calls := D.s2.calls, lpCalls := D.s2.lpCalls, lpN := D.s2.lpN, lpRes := D.s2.lpRes,
+    hs := D.s2.hs, calls := D.s2.calls, lpCalls := D.s2.lpCalls, lpN := D.s2.lpN, lpRes := D.s2.lpRes, lpFrom := D.s2.lpFrom,
     lamCols := s.lamCols ++ [D.lam], lamEGs := s.lamEGs ++ [D.lamEG], thetas := s.thetas ++ [s.theta],
     etas := s.etas ++ [etaOf P s D], gapsEG := s.gapsEG ++ [D.gapEG], gaps := s.gaps ++ [D.gap], qs := s.qs ++ [D.q],
     fromLP := s.fromLP ++ [!D.useEG],
     lamLP := match D.lpLam with | none => s.lamLP | some l => s.lamLP ++ [(s.t, l)],
+    certs := s.certs ++ [(D.cert, D.gap, D.q)],
     shrinks := if shrinkOf P s D then s.shrinks + 1 else s.shrinks,
     checks := if dueOf P s D then s.checks + 1 else s.checks,
     cacheHits := D.s2.cacheHits }
